@@ -102,6 +102,30 @@ Section Loader.
       | Diverge => Diverge
       end.
 
+  (* The recursion of a build over bases (KustTarget.accumulateResources / accumulateComponents ->
+     accumulateDirectory -> subKt … ): [bases root] are the directory references listed by the
+     kustomization rooted at [root]; each is turned into a new loader by New and visited in turn.
+     Explicit fuel (one unit per nesting level); result: the roots visited, in order.  A reference that
+     New refuses fails the build. *)
+  Fixpoint visit_roots (fuel : nat) (fs : fsops) (bases : string -> list string) (l : loader)
+    : res (list string) :=
+    match fuel with
+    | O => Diverge
+    | S f =>
+        do rs <- (fix go (ps : list string) : res (list string) :=
+                    match ps with
+                    | [] => Ok []
+                    | p :: t =>
+                        match new_root fs l p with
+                        | Ok l2 => do a <- visit_roots f fs bases l2; do b <- go t; Ok (a ++ b)%list
+                        | Err => Err
+                        | Panic => Panic
+                        | Diverge => Diverge
+                        end
+                    end) (bases (l_root l));
+        Ok (l_root l :: rs)
+    end.
+
   (* loader.NewLoader: the loader krusty.Run starts from *)
   Definition new_loader (fs : fsops) (r : restriction) (target : string) : res loader :=
     if is_repo target then git_new (mkLoader "" [] r) target
